@@ -33,6 +33,7 @@ func LawShapes(thorough bool) []*Shape {
 		out = append(out, NilVsEmpty(a, []tagVariant{tagNone})...)
 	}
 	out = append(out, NilVsEmpty(AnnVJL, []tagVariant{tagJSON, tagJSONOE})...)
+	out = append(out, JSONClosed(AnnVJL, []tagVariant{tagNone})...)
 	// field counts
 	counts := []int{1, 2, 9, 21, 22}
 	if thorough {
@@ -88,6 +89,7 @@ func JSONShapes(thorough bool) []*Shape {
 	}
 	out = append(out, OneFieldTags(AnnVJ, []tagVariant{tagJSON, tagJSONOE, tagJSONNoN, tagJSONDsh, tagFP, tagOther, tagTwo})...)
 	out = append(out, NilVsEmpty(AnnVJ, []tagVariant{tagNone, tagJSON, tagJSONOE, tagJSONNoN})...)
+	out = append(out, JSONClosed(AnnVJ, []tagVariant{tagNone, tagJSON, tagJSONOE})...)
 	out = append(out, Grouped(AnnVJ)...)
 	out = append(out, UserDefined(AnnVJ)...)
 	if thorough {
